@@ -193,7 +193,8 @@ func Load(dir string) (*Engine, error) {
 		}
 	}
 	cur := e
-	for round := 0; round < 3; round++ {
+	inlSeq = 0
+	for round := 0; round < 4; round++ {
 		if hov, hn := hoistCondCalls(cur.Pkgs, readSource(overlay)); len(hov) > 0 {
 			merged := map[string][]byte{}
 			for k, v := range overlay {
@@ -209,26 +210,75 @@ func Load(dir string) (*Engine, error) {
 		}
 		ov, done, nts := inlineNewHelpers(cur.Pkgs, readSource(overlay))
 		notes = append(notes, nts...)
-		if len(ov) == 0 {
-			break
-		}
-		for k, v := range ov {
-			overlay[k] = v
-		}
-		if d := os.Getenv("ALLIANCECHECK_DEBUG_INLINE"); strings.HasPrefix(d, "/") {
+		if len(ov) > 0 {
 			for k, v := range ov {
-				_ = os.WriteFile(filepath.Join(d, fmt.Sprintf("r%d_%s", round, filepath.Base(k))), v, 0o644)
+				overlay[k] = v
+			}
+			if d := os.Getenv("ALLIANCECHECK_DEBUG_INLINE"); strings.HasPrefix(d, "/") {
+				for k, v := range ov {
+					_ = os.WriteFile(filepath.Join(d, fmt.Sprintf("r%d_%s", round, filepath.Base(k))), v, 0o644)
+				}
+			}
+			next, err := loadOverlay(dir, overlay)
+			if err != nil {
+				// the rewrite did not type-check: analyse the program as it is written
+				e.InlineNotes = append(notes, "inlining abandoned: "+strings.SplitN(err.Error(), "\n", 3)[0]+" ...")
+				curEngine = e
+				return e, nil
+			}
+			inlined = append(inlined, done...)
+			cur = next
+		}
+		// loops over constant tables of closures are written out (one block per element)
+		tov, tnts := unrollConstTables(cur.Pkgs, readSource(overlay))
+		notes = append(notes, tnts...)
+		if len(tov) > 0 {
+			merged := map[string][]byte{}
+			for k, v := range overlay {
+				merged[k] = v
+			}
+			for k, v := range tov {
+				merged[k] = v
+			}
+			if d := os.Getenv("ALLIANCECHECK_DEBUG_INLINE"); strings.HasPrefix(d, "/") {
+				for k, v := range tov {
+					_ = os.WriteFile(filepath.Join(d, fmt.Sprintf("t%d_%s", round, filepath.Base(k))), v, 0o644)
+				}
+			}
+			if nx, err := loadOverlay(dir, merged); err == nil {
+				cur, overlay = nx, merged
+			} else {
+				notes = append(notes, "table unrolling abandoned: "+strings.SplitN(err.Error(), "\n", 3)[0])
+				tov = nil
 			}
 		}
-		next, err := loadOverlay(dir, overlay)
-		if err != nil {
-			// the rewrite did not type-check: analyse the program as it is written
-			e.InlineNotes = append(notes, "inlining abandoned: "+strings.SplitN(err.Error(), "\n", 3)[0]+" ...")
-			curEngine = e
-			return e, nil
+		// local closures that are only called (what an inlined callback-taking helper leaves behind)
+		cov, cdone, cnts := inlineLocalClosures(cur.Pkgs, readSource(overlay))
+		notes = append(notes, cnts...)
+		if len(cov) > 0 {
+			merged := map[string][]byte{}
+			for k, v := range overlay {
+				merged[k] = v
+			}
+			for k, v := range cov {
+				merged[k] = v
+			}
+			if d := os.Getenv("ALLIANCECHECK_DEBUG_INLINE"); strings.HasPrefix(d, "/") {
+				for k, v := range cov {
+					_ = os.WriteFile(filepath.Join(d, fmt.Sprintf("c%d_%s", round, filepath.Base(k))), v, 0o644)
+				}
+			}
+			if nx, err := loadOverlay(dir, merged); err == nil {
+				cur, overlay = nx, merged
+				inlined = append(inlined, cdone...)
+			} else {
+				notes = append(notes, "closure inlining abandoned: "+strings.SplitN(err.Error(), "\n", 3)[0])
+				cov = nil
+			}
 		}
-		inlined = append(inlined, done...)
-		cur = next
+		if len(ov) == 0 && len(cov) == 0 && len(tov) == 0 {
+			break
+		}
 	}
 	cur.Inlined = inlined
 	cur.InlineNotes = notes
